@@ -18,6 +18,9 @@ FEATS = [
     {"int", "float", "str", "bool", "varrange", "sizedlist", "plainlist", "concrete_ref", "unreachable"},
     {"intrange", "tuple", "union", "sizedlist", "nested_abstract", "concrete_ref", "unreachable"},
     {"intrange", "floatrange", "strsize", "interval", "intlist", "floatlist", "dependent", "sizedlist"},
+    {"intrange", "nested", "sizedlist", "union", "tuple", "concrete_ref"},
+    {"intrange", "weights", "nested_abstract", "sizedlist"},
+    {"intrange", "int", "weights", "concrete_ref"},
 ]
 
 
@@ -58,8 +61,8 @@ def one(spec, batch, stats, lang=False):
                     u = g0.usable_grammar()
                 iu = impl_grammar(u)
                 evs.append({"e": "usable", "exc": "", "impl": iu})
-                if lang and finite_choice(spec):
-                    d = min(int(g0.get_min_tree_depth()) + 1, 3)
+                d = min(int(g0.get_min_tree_depth()) + 1, 3)
+                if lang and finite_choice(spec) and GR.lang_size(spec, d) <= 2000:
                     evs.append({"e": "usable_lang", "d": d, "impl": iu})
             except Exception as e:
                 evs.append({"e": "usable", "exc": exc_name(e), "impl": {"expd": False}})
